@@ -304,8 +304,13 @@ def gen_response_stream(r, ctx, method):
     else:
         body = data
     r1 = random.Random("C09:conn:" + str(ctx["req_id"]))
-    if r1.random() < 0.12:
+    if r1.random() < 0.15:
         # the response nominates fields it carries itself (registered, end-to-end ones) as hop-by-hop
+        have = {k for k, _ in base_h}
+        if "Age" not in have and r1.random() < 0.5:
+            base_h.append(("Age", "7"))
+        if "Expires" not in have and r1.random() < 0.5:
+            base_h.append(("Expires", http_date(time.time() + 3600)))
         mine = [k for k, _ in base_h if k not in ("X-Verif-Rid",)]
         if mine:
             base_h.insert(r1.randrange(len(base_h) + 1), ("Connection", ", ".join(r1.sample(mine, r1.randrange(1, min(3, len(mine)) + 1)))))
